@@ -25,6 +25,21 @@ train_ppo -> collect_trajectories -> update_ppo runs on harness.envs.ScriptEnv
 with a stub critic that is injective on observation tags and is compared with
 the emitted rows, next values (exact) and per-environment GAE forms.
 
+spec/ReturnsA2CRollout.tla (binding in c07_signals.py): A2C rollouts judged against what the vector environment
+EMITTED.  TLC chooses the (terminated, truncated) flags of every step of every sub-environment - all patterns on a
+small T x N lattice -, collect_trajectories writes the rollout buffer, prepare_a2c_batch reads it; the advantages /
+returns (also the ones the real train_a2c hands to train_policy_a2c / train_value_function) must equal the GAE
+recurrence on the emitted reward / value / TERMINATION sequences: a merely truncated step cuts nothing.
+
+spec/ReturnsMRQ.tla + ReturnsMRQTrace.tla (binding in c07_signals.py): the composition "train_mrq's buffer construction
++ its two sampling calls + discounted_n_step_return".  TLC checks on a transcription of the subtrajectory buffer that
+for every (encoder_horizon, q_horizon) and every history of continued / terminated / truncated episodes each window
+handed to the critic / encoder update is a run of one episode up to its first termination and the critic target is
+the one of the environment's own log; the real train_mrq runs with its own buffer on harness.envs.ScriptEnv for
+several horizon pairs (q_horizon > encoder_horizon + 1 included), every batch handed to update_critic_and_policy /
+update_model_based_encoder is recorded and judged by the trace specification against the environment's log; TLC prints
+the n-step return / residual discount / critic target of the window's own episode, compared exactly.
+
 spec/ReturnsDataset.tla: ONE live EpisodeDataset as a state machine (StartEpisode,
 AddSample, observers Prepare(gamma) / Length / AverageReturn).  Every transition
 of the state graph - including Prepare(g2) right after Prepare(g1) - is replayed
@@ -42,13 +57,14 @@ from fractions import Fraction
 import numpy as np
 
 from .. import exact, tlc
+from . import c07_signals as sig
 
 LEVEL = "model_checking"
 MANIFEST = dict(
     category="model_checking",
-    text="TLC checks on Returns.tla (exact rational arithmetic) that reward-to-go, n-step return with residual discount, GAE, the A2C / PPO batched advantage preparation, MR.Q's critic target and the encoder-loss mask satisfy their recurrences (= independently written closed forms) and are causal: changing any cell outside {own trajectory, index >= t, <= first termination} never changes output t (relational invariant over every termination pattern), and that this dependency set is tight. Every TLC-generated vector is replayed into the real functions with table stubs and compared exactly (dyadic lattice: float32 arithmetic is exact); the TLC-generated irrelevant / relevant cell sets drive bitwise perturbation tests on random float inputs. Arithmetic laws over all small inputs plus a non-interference relation are exactly what a model checker with exact arithmetic decides and example tests cannot. Rollout level (ReturnsRollout.tla): on TLC-chosen episode scripts of 2-3 sub-environments (finishing alone / together, terminated / truncated, inside / at the end of a collection call) the next value kept for a step is the value of the observation that step of that environment returned (its episode's final observation when cut there) and an environment's rows equal its solo rollout; train_ppo -> collect_trajectories -> update_ppo is run on such scripted vector environments and compared exactly. Object level (ReturnsDataset.tla): one live EpisodeDataset is a state machine whose observer Prepare(gamma) answers for its own gamma whatever was asked before; every transition of the graph (incl. Prepare(g2) after Prepare(g1)) and random histories run on one real object.",
-    note="bounds: rows B<=2 (encoder 1,2,4), steps H<=3 quick / <=4 thorough, every termination pattern, gamma/lambda in {0,1/4,1/2,1}; data exhaustive for <=1-2 cells, otherwise seeded dense fills; update_ppo's fixed gamma=0.99, lambda=0.95 are compared through TLC's symbolic closed form within an operation-count bound of float32 ulps; truncation boundaries are not cuts; rollouts: 2 environments x two-episode scripts (lengths 1-2 quick / 1-3 thorough) and 3 environments x one-episode scripts (lengths 1-3), 4 (6) vector steps in 1-3 collection calls, each in the set-ups train_ppo with a logger / train_ppo without a logger / collect_trajectories + update_ppo with a logger on the bare vector environment (the step-class cover in all three, the seeded sample rotating); EpisodeDataset graphs up to 3 episodes / 4 (5) samples, rewards {-1, 2}; trusted: scripted vector environment, harness.envs.ScriptEnv under gymnasium SyncVectorEnv, table / linear stubs, interposed ppo.ppo_loss / ppo.compute_gae / ppo.collect_trajectories / ppo.update_ppo recorders, TLC",
-    technique="TLA+ spec + TLC (invariants incl. relational causality on staged vectors; deviation canaries); replay of TLC-generated vectors and dependency sets into compute_gae, discounted_n_step_return, discounted_reward_to_go, prepare_a2c_batch, ppo.collect_trajectories/update_ppo, mrq_loss, model_based_encoder_loss; TLC-generated rollouts into train_ppo on scripted vector environments; transition coverage + random walks of the EpisodeDataset state graph on one live object",
+    text="TLC checks on Returns.tla (exact rational arithmetic) that reward-to-go, n-step return with residual discount, GAE, the A2C / PPO batched advantage preparation, MR.Q's critic target and the encoder-loss mask satisfy their recurrences (= independently written closed forms) and are causal: changing any cell outside {own trajectory, index >= t, <= first termination} never changes output t (relational invariant over every termination pattern), and that this dependency set is tight. Every TLC-generated vector is replayed into the real functions with table stubs and compared exactly (dyadic lattice: float32 arithmetic is exact); the TLC-generated irrelevant / relevant cell sets drive bitwise perturbation tests on random float inputs. Arithmetic laws over all small inputs plus a non-interference relation are exactly what a model checker with exact arithmetic decides and example tests cannot. Rollout level (ReturnsRollout.tla): on TLC-chosen episode scripts of 2-3 sub-environments (finishing alone / together, terminated / truncated, inside / at the end of a collection call) the next value kept for a step is the value of the observation that step of that environment returned (its episode's final observation when cut there) and an environment's rows equal its solo rollout; train_ppo -> collect_trajectories -> update_ppo is run on such scripted vector environments and compared exactly. A2C rollout level (ReturnsA2CRollout.tla): for EVERY pattern of (terminated, truncated) flags a scripted vector environment emits on a small T x N lattice, the advantages / returns that collect_trajectories -> rollout buffer -> prepare_a2c_batch (and the real train_a2c) hand on equal the GAE recurrence of the EMITTED reward / value / termination sequences: a merely truncated step cuts neither bootstrap nor accumulation. MR.Q run level (ReturnsMRQ.tla, ReturnsMRQTrace.tla): TLC checks on a model of train_mrq's own buffer (horizon = max(encoder_horizon, q_horizon)) and its two sampling calls that for every horizon pair and every history of continued / terminated / truncated episodes each window is a run of one episode up to its first termination and the critic target equals the one of the environment's own log; every batch the real train_mrq hands to its critic and encoder update in runs with several horizon pairs (q_horizon > encoder_horizon + 1 included) and truncated episodes is judged row by row against the environment's log, n-step return / residual discount / critic target compared exactly with TLC's values. Object level (ReturnsDataset.tla): one live EpisodeDataset is a state machine whose observer Prepare(gamma) answers for its own gamma whatever was asked before; every transition of the graph (incl. Prepare(g2) after Prepare(g1)) and random histories run on one real object.",
+    note="bounds: rows B<=2 (encoder 1,2,4), steps H<=3 quick / <=4 thorough, every termination pattern, gamma/lambda in {0,1/4,1/2,1}; data exhaustive for <=1-2 cells, otherwise seeded dense fills; update_ppo's fixed gamma=0.99, lambda=0.95 are compared through TLC's symbolic closed form within an operation-count bound of float32 ulps; truncation boundaries are not cuts; rollouts: 2 environments x two-episode scripts (lengths 1-2 quick / 1-3 thorough) and 3 environments x one-episode scripts (lengths 1-3), 4 (6) vector steps in 1-3 collection calls, each in the set-ups train_ppo with a logger / train_ppo without a logger / collect_trajectories + update_ppo with a logger on the bare vector environment (the step-class cover in all three, the seeded sample rotating); A2C rollouts: 2 x 2 (all 256 flag patterns, one collection call: every one replayed), 2 x 3 and 3 x 2 (thorough: + 2 x 4 truncation-only) as step-class cover + seeded sample, 2 (4) discount pairs; MR.Q: buffer model horizons 1-3 (1-4), buffer_size 5 (6), 7 (8) environment steps; real train_mrq runs of 34 (48) steps for 3 (9) horizon pairs with the updates replaced by recorders that run the real mrq_loss on the recorded batch with stub critics (thorough: two runs with the real updates, n-step return recorded inside the jitted loss), gamma 1/2; EpisodeDataset graphs up to 3 episodes / 4 (5) samples, rewards {-1, 2}; trusted: scripted vector environment, harness.envs.ScriptEnv under gymnasium SyncVectorEnv, table / linear stubs, interposed ppo.ppo_loss / ppo.compute_gae / ppo.collect_trajectories / ppo.update_ppo recorders, a2c.train_policy_a2c / a2c.train_value_function / a2c.collect_trajectories recorders, mrq.update_critic_and_policy / mrq.update_model_based_encoder / mrq.discounted_n_step_return recorders, TLC",
+    technique="TLA+ spec + TLC (invariants incl. relational causality on staged vectors; deviation canaries); replay of TLC-generated vectors and dependency sets into compute_gae, discounted_n_step_return, discounted_reward_to_go, prepare_a2c_batch, ppo.collect_trajectories/update_ppo, mrq_loss, model_based_encoder_loss; TLC-generated rollouts into train_ppo on scripted vector environments; TLC-generated flag patterns into a2c.collect_trajectories + prepare_a2c_batch / train_a2c on a scripted vector environment; trace validation (ReturnsMRQTrace) of every critic / encoder batch recorded from real train_mrq runs against the environment log; transition coverage + random walks of the EpisodeDataset state graph on one live object",
 )
 
 ALL_KINDS = ["rtg", "nstep", "gae", "a2c", "ppo", "mrq", "enc"]
@@ -111,14 +127,20 @@ def expect_exact(probs, key, label, got, want, ravel=False):
 # ------------------------------------------------------------ scripted pieces
 class ScriptedVecEnv:
     """Duck-typed vector environment.  Observation of environment n at time t is
-    the tag [t*N + n]; rewards / terminations follow the script (time-major)."""
+    the tag [t*N + n]; rewards / terminations / truncations follow the script (time-major).
+    `log` is the environment's own record of what it emitted."""
 
-    def __init__(self, rew_tn, term_tn, term_dtype=bool):
+    def __init__(self, rew_tn, term_tn, term_dtype=bool, trunc_tn=None):
+        import gymnasium as gym
+
         self.rew = np.asarray(rew_tn, dtype=np.float64)
         self.term = np.asarray(term_tn)
+        self.trunc = np.zeros(self.term.shape, dtype=bool) if trunc_tn is None else np.asarray(trunc_tn).astype(bool)
         self.T, self.num_envs = self.rew.shape
         self.term_dtype = term_dtype
+        self.single_action_space = gym.spaces.Discrete(2)
         self.t = 0
+        self.log = []
 
     def _obs(self, t):
         return np.array([[t * self.num_envs + n] for n in range(self.num_envs)], dtype=np.float32)
@@ -130,8 +152,9 @@ class ScriptedVecEnv:
     def step(self, action):
         t = self.t
         self.t += 1
+        self.log.append({"rew": self.rew[t].tolist(), "term": self.term[t].astype(int).tolist(), "trunc": self.trunc[t].astype(int).tolist()})
         return (self._obs(t + 1), self.rew[t].copy(), self.term[t].astype(self.term_dtype),
-                np.zeros(self.num_envs, dtype=bool), {})
+                self.trunc[t].copy(), {})
 
 
 class ZeroPolicy:
@@ -1034,6 +1057,10 @@ def run(rep):
         roll_cfgs = [(2, 4, [1, 2], 2, [4, 2]), (3, 4, [1, 2, 3], 1, [4])]
         roll_budget = 140
         ds_cover, ds_walk, ds_walks = (2, 3, 2, False), (3, 4, 2, False), (60, 14)
+        # A2C rollouts: (N, T, block sizes, flag codes terminated + 2 truncated); discount pairs; budget of non-exhaustive runs
+        a2c_cfgs, a2c_ngl, a2c_budget = [(2, 2, [2, 1], [0, 1, 2, 3]), (2, 3, [3], [0, 2]), (3, 2, [2], [0, 2])], 2, 90
+        # MR.Q buffer model: (encoder horizons, q horizons, buffer_size, environment steps)
+        mrq_model = ([1, 2, 3], [1, 2, 3], 5, 6)
     else:
         law = dict(shapes=[11, 12, 13, 14, 21, 22, 23, 24, 41, 42], K=3, exh=2, exh_kinds=("rtg", "nstep", "gae"))
         rel = dict(shapes=[11, 12, 13, 14, 21, 22, 23, 41], K=2, exh=1)
@@ -1042,6 +1069,8 @@ def run(rep):
         roll_cfgs = [(2, 6, [1, 2, 3], 2, [6, 3, 2]), (3, 6, [1, 2, 3], 1, [6, 3]), (3, 4, [1, 2], 2, [4])]
         roll_budget = 1500
         ds_cover, ds_walk, ds_walks = (3, 4, 2, True), (3, 5, 2, True), (600, 20)
+        a2c_cfgs, a2c_ngl, a2c_budget = [(2, 2, [2, 1], [0, 1, 2, 3]), (2, 3, [3, 1], [0, 1, 2, 3]), (3, 2, [2, 1], [0, 1, 2, 3]), (2, 4, [4, 2], [0, 2])], 4, 1500
+        mrq_model = ([1, 2, 3, 4], [1, 2, 3, 4], 6, 8)
     rep.rule = (
         "TLC stages a vector per operation (rtg, nstep, gae, a2c, ppo, mrq, enc): shape B x H in %s (coded 10B+H; B=4 encoder only), every "
         "gamma/lambda in {0,1/2,1} (+1/4 in the thorough tier), EVERY termination pattern, data exhaustive over the 3-value lattices for "
@@ -1052,6 +1081,13 @@ def run(rep):
         "episodes per script, block sizes), every class of vector step (per environment goes on / terminated / truncated, at a block end or "
         "not) is replayed at least once in EVERY set-up (train_ppo with / without a logger, collect_trajectories + update_ppo on the bare vector environment with a logger) plus a seeded sample rotating through the set-ups, %d runs in all; EpisodeDataset: every transition of the state graph "
         "%s (episodes, samples, rewards, 1/4) once, %d random histories of <= %d calls on the graph %s" % (roll_cfgs, roll_budget, ds_cover, ds_walks[0], ds_walks[1], ds_walk)
+        + "; A2C rollouts: TLC chooses the (terminated, truncated) flags of every step of every sub-environment %s (N, T, block sizes, flag codes "
+        "terminated + 2 truncated), ALL patterns; every rollout of the smallest lattice in one collection call is replayed for %d discount pairs, "
+        "of the others a cover of the vector-step classes in both set-ups (collect_trajectories + prepare_a2c_batch / train_a2c) + a seeded sample "
+        "(budget %d); non-trivial: a step truncated but not terminated; MR.Q: the buffer model over horizons x all episode histories %s "
+        "(encoder horizons, q horizons, buffer_size, steps), and real train_mrq runs (own buffer, seeded episode scripts with truncated episodes "
+        "longer than the horizons) for the horizon pairs %s whose every recorded critic / encoder batch row is judged by TLC"
+        % (a2c_cfgs, a2c_ngl, a2c_budget, mrq_model, [(x["eh"], x["qh"], x["mode"]) for x in sig.mrq_scenarios(rep.tier, rep.seed)])
     )
 
     # all TLC runs are independent processes: start them together, bind while the property runs finish
@@ -1094,7 +1130,6 @@ def run(rep):
                            tag="c07dswalk", timeout=1500)
     f_dsdev = pool.submit(tlc.run, "ReturnsDataset", tlc.cfg_text(next="NextMemo", constants=ds_consts(2, 2, 2, False, False), invariants=["PrepareAnswersItsGamma"]),
                           workers=1, tag="c07dsdev")
-    pool.shutdown(wait=False)
     import jax  # noqa: F401 - warm the import while TLC runs
     import rl_blox.algorithm.ppo  # noqa: F401
     import rl_blox.algorithm.mrq  # noqa: F401
@@ -1119,8 +1154,38 @@ def run(rep):
                 raise tlc.MachineryError(f"canary: rollout deviation {variant} (set-up {setup}) not refuted by {inv}")
         if f_dsdev.result().violated != "PrepareAnswersItsGamma":
             raise tlc.MachineryError("canary: reward to go memoised per episode position (PrepareMemo) not refuted by PrepareAnswersItsGamma")
+        for (variant, inv), f in zip(sig.A2C_DEVS, f_a2cdev):
+            if f.result().violated != inv:
+                raise tlc.MachineryError(f"canary: A2C rollout deviation {variant} not refuted by {inv}")
+        r = f_mrq.result()
+        rep.add_tlc(r, "ReturnsMRQ horizons %s x %s, buffer_size %d, %d steps: " % mrq_model + ",".join(sig.MRQ_INVS))
+        if not r.ok:
+            rep.violation(f"spec:ReturnsMRQ:{r.violated}", f"design-level violation of {r.violated}", r.error_trace)
+        for (variant, inv), f in zip(sig.MRQ_DEVS, f_mrqdev):
+            if f.result().violated != inv:
+                raise tlc.MachineryError(f"canary: MR.Q buffer-horizon deviation {variant} not refuted by {inv}")
 
     lap("imports")
+    # 0. MR.Q: the real train_mrq with its own buffer for several horizon pairs; the recorded batches go to TLC in
+    #    the background (ReturnsMRQTrace) and the verdicts are collected in step 8c
+    mrq_runs = [sig.run_mrq_scenario(sc) for sc in sig.mrq_scenarios(rep.tier, rep.seed)]
+    f_mrqtrace = pool.submit(sig.judge_mrq_runs, mrq_runs)
+    # (the TLC runs below are started only now: the burst of JVMs at the start competes with the imports, and
+    #  their results are needed in steps 8b / 8c and at the end)
+    # 3d. A2C rollouts judged against what the environment emitted (invariants + generation in one run per lattice) and
+    #     the deviations "terminated OR truncated stored as / read as the termination"
+    f_a2c = [pool.submit(tlc.run, "ReturnsA2CRollout", tlc.cfg_text(constants=sig.a2c_consts(n, t, bss, codes, a2c_ngl, rep.seed, True), invariants=sig.A2C_INVS),
+                         workers=1, coverage=(i == 0), tag="c07a2c", timeout=1500) for i, (n, t, bss, codes) in enumerate(a2c_cfgs)]
+    f_a2cdev = [pool.submit(tlc.run, "ReturnsA2CRollout", tlc.cfg_text(constants=sig.a2c_consts(2, 2, [2], [0, 1, 2, 3], 1, rep.seed, False, variant), invariants=[inv]),
+                            workers=1, tag="c07a2cdev", env=sig.FAST_JVM) for variant, inv in sig.A2C_DEVS]
+    # 3e. MR.Q: train_mrq's buffer construction + sampling horizons on a model of the subtrajectory buffer, and the
+    #     deviations "buffer horizon = encoder_horizon" / "= q_horizon"; non-vacuity: admissible starts exist
+    f_mrq = pool.submit(tlc.run, "ReturnsMRQ", tlc.cfg_text(constants=sig.mrq_consts(*mrq_model), invariants=sig.MRQ_INVS),
+                        workers=max(1, workers // 4), tag="c07mrq", timeout=1500)
+    f_mrqdev = [pool.submit(tlc.run, "ReturnsMRQ", tlc.cfg_text(constants=sig.mrq_consts([1, 3], [1, 3], 6, 6, variant), invariants=[inv]),
+                            workers=1, tag="c07mrqdev", env=sig.FAST_JVM) for variant, inv in sig.MRQ_DEVS]
+    pool.shutdown(wait=False)
+    lap("mrq_runs")
     g = f_gen.result()
     rep.add_tlc(g, "Returns generation")
     vectors = [e for e in g.emitted if e["kind"] != "deps"]
@@ -1216,6 +1281,46 @@ def run(rep):
             rep.sample({"operation": "rollout", "scripts": v["scripts"], "blocking": v["blocking"], "first_block": v["blocks"][0]["flat"][: 2 * v["blocks"][0]["bs"]]})
     lap("replay_rollouts")
 
+    # 8b. A2C rollouts: every (terminated, truncated) pattern the scripted vector environment emits -> rollout buffer ->
+    #     prepare_a2c_batch, judged against the recurrence on the EMITTED sequences
+    a2c_recs = []
+    for (n, t, bss, codes), f in zip(a2c_cfgs, f_a2c):
+        r = f.result()
+        rep.add_tlc(r, f"ReturnsA2CRollout N={n} T={t} blocks {bss} flag codes {codes}: " + ",".join(sig.A2C_INVS))
+        if not r.ok:
+            rep.violation(f"spec:ReturnsA2CRollout:{r.violated}", f"design-level violation of {r.violated}", r.error_trace)
+            continue
+        if r.coverage:
+            tlc.require_covered(r, sig.A2C_ACTIONS)
+        a2c_recs += r.emitted
+    lap("tlc_a2c_rollouts_wait")
+    if a2c_recs:
+        n_runs = sig.run_a2c_rollouts(rep, a2c_recs, a2c_budget)
+        rep.traces += n_runs
+        checked += n_runs
+    lap("replay_a2c_rollouts")
+
+    # 8c. MR.Q: TLC's verdicts on every batch row train_mrq handed to its critic / encoder update
+    res, has_canary = f_mrqtrace.result()
+    rep.add_tlc(res, "ReturnsMRQTrace: recorded critic / encoder batch rows of %d train_mrq runs" % len(mrq_runs))
+    lap("tlc_mrq_trace_wait")
+    mrq_probs, mrq_stats = sig.mrq_verdicts(mrq_runs, res, has_canary)
+    if mrq_stats["values_compared"] and not any(pr["key"] == "train_mrq:critic_n_step_return" and pr not in base
+                                                for probs, base in zip(sig.mrq_verdicts(mrq_runs, res, has_canary, corrupt=True)[0], mrq_probs) for pr in probs):
+        raise tlc.MachineryError("binding canary: corrupted expected n-step return of the recorded critic rows went unnoticed")
+    for run, probs in zip(mrq_runs, mrq_probs):
+        for pr in probs:
+            rep.violation(pr["key"], pr["what"], {"mode": "mrq_run", "scenario": run["scenario"]})
+    rep.traces += len(mrq_runs)
+    checked += mrq_stats["rows_judged"]
+    rep.extra["mrq_runs"] = dict(mrq_stats, runs=[{"encoder_horizon": r["eh"], "q_horizon": r["qh"], "mode": r["scenario"]["mode"], "episodes": r["eps"],
+                                                  "critic_batches": r["calls"]["critic"], "encoder_batches": r["calls"]["encoder"], "distinct_rows": len(r["rows"])} for r in mrq_runs])
+    ex = next(({"operation": "train_mrq critic row", "encoder_horizon": r["eh"], "q_horizon": r["qh"], "episodes": r["eps"], "row": row}
+               for r in mrq_runs for row in r["rows"] if row["kind"] == "critic" and r["eps"][row["obs"][0]][1] == "trunc"), None)
+    if ex:
+        rep.sample(ex)
+    lap("mrq_verdicts")
+
     # 9. one live EpisodeDataset: every transition of the smaller state graph once (cover), then histories of
     #    mutators and observers on ONE object drawn from the larger graph (walks)
     from .. import graph
@@ -1287,6 +1392,8 @@ def run(rep):
         "update_ppo fixes gamma=0.99, lambda=0.95: compared with TLC's symbolic closed form in (G, C) within (6*steps+2) float32 round-offs of the term magnitudes",
         "reward cross-entropy of the encoder compared as a multiple of ln 2 within N+H+2 ulp; everything else exact",
         "truncation boundaries inside a rollout are not treated as cuts of the accumulated advantage (the statement speaks of termination); the next value of a truncated step must be the value of the episode's own final observation",
+        "A2C rollouts: the scripted vector environment has no auto-reset; the next value of a step is the value of the observation that step returned; truncation is no cut (as for PPO)",
+        "MR.Q runs: windows are judged under the prefix reading (rows behind the first terminated step are ignored); the recorded critic batch is evaluated by the real mrq_loss with stub critics and reward scales 1 (exact), the routine's own reward scales are not dyadic; quick tier: the updates themselves are replaced by recorders",
         "EpisodeDataset: Prepare on a data set without samples has no specified result (the repository raises IndexError)",
         "trusted: scripted vector environment, table stubs, recorders interposed on ppo.ppo_loss / ppo.compute_gae, TLC",
     ]
@@ -1300,6 +1407,14 @@ def replay(path, rep):
     elif d["mode"] == "rollout":
         probs = check_rollout(d["record"], setup=d.get("setup", "logger_stats"))
         print("rollout:", d.get("setup", "logger_stats"), json.dumps({k: d["record"][k] for k in ("n", "scripts", "blocking")}))
+    elif d["mode"] == "a2c_rollout":
+        probs = sig.check_a2c_rollout(d["record"], d.get("setup", "direct"), d.get("gl", [0]))
+        print("A2C rollout:", d.get("setup", "direct"), json.dumps({k: d["record"][k] for k in ("n", "steps", "blocking", "script")})[:900])
+    elif d["mode"] == "mrq_run":
+        run = sig.run_mrq_scenario(d["scenario"])
+        res, has_canary = sig.judge_mrq_runs([run])
+        probs = sig.mrq_verdicts([run], res, has_canary)[0][0]
+        print("train_mrq run:", json.dumps(d["scenario"]), "episodes", run["eps"])
     elif d["mode"] == "dataset":
         from .. import graph
 
